@@ -257,22 +257,32 @@ class FunctionType:
     #:            calling convention
     msvc_convention: typing.Optional[str] = None
 
-    def format(self) -> str:
-        vararg = "..." if self.vararg else ""
-        params = ", ".join(p.format() for p in self.parameters)
-        if self.has_trailing_return:
-            return f"auto ({params}{vararg}) -> {self.return_type.format()}"
+    def _format_declarator(self, decl: str, prefixed: bool) -> str:
+        # decl is the declarator built so far (inside-out); prefixed is True
+        # when it starts with a pointer/reference operator and so needs
+        # parentheses before a suffix is attached
+        params = [p.format() for p in self.parameters]
+        if self.vararg:
+            params.append("...")
+        conv = f"{self.msvc_convention} " if self.msvc_convention else ""
+        if prefixed:
+            decl = f"({conv}{decl})"
         else:
-            return f"{self.return_type.format()} ({params}{vararg})"
+            decl = f"{conv}{decl}"
+        decl = f"{decl}({', '.join(params)})"
+        if self.noexcept is not None:
+            n = self.noexcept.format()
+            decl += f" noexcept({n})" if n else " noexcept"
+        if self.has_trailing_return:
+            return f"auto {decl} -> {self.return_type.format()}"
+        return self.return_type._format_declarator(decl, False)
+
+    def format(self) -> str:
+        return self._format_declarator("", False)
 
     def format_decl(self, name: str) -> str:
         """Format as a named declaration"""
-        vararg = "..." if self.vararg else ""
-        params = ", ".join(p.format() for p in self.parameters)
-        if self.has_trailing_return:
-            return f"auto {name}({params}{vararg}) -> {self.return_type.format()}"
-        else:
-            return f"{self.return_type.format()} {name}({params}{vararg})"
+        return self._format_declarator(name, False)
 
 
 @dataclass
@@ -291,11 +301,15 @@ class Type:
         v = "volatile " if self.volatile else ""
         return f"{c}{v}{self.typename.format()}"
 
+    def _format_declarator(self, decl: str, prefixed: bool) -> str:
+        # pointer/reference operators are written next to the type name
+        if not decl or decl[0] in "*&[":
+            return f"{self.format()}{decl}"
+        return f"{self.format()} {decl}"
+
     def format_decl(self, name: str):
         """Format as a named declaration"""
-        c = "const " if self.const else ""
-        v = "volatile " if self.volatile else ""
-        return f"{c}{v}{self.typename.format()} {name}"
+        return self._format_declarator(name, False)
 
 
 @dataclass
@@ -316,13 +330,17 @@ class Array:
     #:          ~~
     size: typing.Optional[Value]
 
-    def format(self) -> str:
+    def _format_declarator(self, decl: str, prefixed: bool) -> str:
         s = self.size.format() if self.size else ""
-        return f"{self.array_of.format()}[{s}]"
+        if prefixed:
+            decl = f"({decl})"
+        return self.array_of._format_declarator(f"{decl}[{s}]", False)
+
+    def format(self) -> str:
+        return self._format_declarator("", False)
 
     def format_decl(self, name: str) -> str:
-        s = self.size.format() if self.size else ""
-        return f"{self.array_of.format()} {name}[{s}]"
+        return self._format_declarator(name, False)
 
 
 @dataclass
@@ -337,24 +355,18 @@ class Pointer:
     const: bool = False
     volatile: bool = False
 
-    def format(self) -> str:
+    def _format_declarator(self, decl: str, prefixed: bool) -> str:
         c = " const" if self.const else ""
         v = " volatile" if self.volatile else ""
-        ptr_to = self.ptr_to
-        if isinstance(ptr_to, (Array, FunctionType)):
-            return ptr_to.format_decl(f"(*{c}{v})")
-        else:
-            return f"{ptr_to.format()}*{c}{v}"
+        sep = " " if decl and decl[0] not in "*&" else ""
+        return self.ptr_to._format_declarator(f"*{c}{v}{sep}{decl}", True)
+
+    def format(self) -> str:
+        return self._format_declarator("", False)
 
     def format_decl(self, name: str):
         """Format as a named declaration"""
-        c = " const" if self.const else ""
-        v = " volatile" if self.volatile else ""
-        ptr_to = self.ptr_to
-        if isinstance(ptr_to, (Array, FunctionType)):
-            return ptr_to.format_decl(f"(*{c}{v} {name})")
-        else:
-            return f"{ptr_to.format()}*{c}{v} {name}"
+        return self._format_declarator(name, False)
 
 
 @dataclass
@@ -365,21 +377,16 @@ class Reference:
 
     ref_to: typing.Union[Array, FunctionType, Pointer, Type]
 
+    def _format_declarator(self, decl: str, prefixed: bool) -> str:
+        sep = " " if decl else ""
+        return self.ref_to._format_declarator(f"&{sep}{decl}", True)
+
     def format(self) -> str:
-        ref_to = self.ref_to
-        if isinstance(ref_to, Array):
-            return ref_to.format_decl("(&)")
-        else:
-            return f"{ref_to.format()}&"
+        return self._format_declarator("", False)
 
     def format_decl(self, name: str):
         """Format as a named declaration"""
-        ref_to = self.ref_to
-
-        if isinstance(ref_to, Array):
-            return ref_to.format_decl(f"(& {name})")
-        else:
-            return f"{ref_to.format()}& {name}"
+        return self._format_declarator(name, False)
 
 
 @dataclass
@@ -390,12 +397,16 @@ class MoveReference:
 
     moveref_to: typing.Union[Array, FunctionType, Pointer, Type]
 
+    def _format_declarator(self, decl: str, prefixed: bool) -> str:
+        sep = " " if decl else ""
+        return self.moveref_to._format_declarator(f"&&{sep}{decl}", True)
+
     def format(self) -> str:
-        return f"{self.moveref_to.format()}&&"
+        return self._format_declarator("", False)
 
     def format_decl(self, name: str):
         """Format as a named declaration"""
-        return f"{self.moveref_to.format()}&& {name}"
+        return self._format_declarator(name, False)
 
 
 #: A type or function type that is decorated with various things
